@@ -71,6 +71,7 @@ pub fn on_fresh_thread<R: Send + 'static>(
     key_seed: u64,
     f: impl FnOnce() -> R + Send + 'static,
 ) -> Result<R, String> {
+    let (tx, rx) = std::sync::mpsc::channel::<Result<R, String>>();
     let h = std::thread::Builder::new()
         .stack_size(256 << 20)
         .spawn(move || {
@@ -81,11 +82,20 @@ pub fn on_fresh_thread<R: Send + 'static>(
             let r = guarded(f);
             simplesl_verif_seams::os::uninstall();
             simplesl_verif_seams::sync::sim_abort();
-            r
+            let _ = tx.send(r);
         })
         .expect("spawn run thread");
-    match h.join() {
-        Ok(r) => r,
+    // watchdog: a run that does not finish (e.g. code under test blocking on a primitive the
+    // scheduler does not own) must not hang the worker; the thread is abandoned
+    match rx.recv_timeout(std::time::Duration::from_secs(RUN_TIMEOUT_S)) {
+        Ok(r) => {
+            let _ = h.join();
+            r
+        }
+        Err(std::sync::mpsc::RecvTimeoutError::Timeout) => Err(format!("{WATCHDOG}: run did not finish within {RUN_TIMEOUT_S} s (thread abandoned)")),
         Err(_) => Err("<run thread died>".into()),
     }
 }
+
+pub const RUN_TIMEOUT_S: u64 = 60;
+pub const WATCHDOG: &str = "VERIF-WATCHDOG";
